@@ -145,6 +145,8 @@ _OPT = "coarse" if os.environ.get("VERIF_PROMISE_REFINE", "") == "off" else ""
 
 FAM = dict(driver="promise", specdirs=["promise", "lib"], opt=_OPT, monitor="PromisePTrace", property_of=PROPERTY_OF, models=models,
            n_random={"quick": 6000, "thorough": 200000},
+           # M2: free-running parallel container.SetResult sequences next to awaiters (4 Ps), then one Await at quiescence
+           modes={"quick": [("burst", "burst", 2000, 4)], "thorough": [("burst", "burst", 100000, 4)]},
            x_specs=["promise/Promise.tla"], p_monitor="promise/PromiseP.tla",
            advisory=lambda wd, binp, seed, tier: x_conformance(wd, binp, seed, SCEN["quick"] if tier == "quick" else SCEN["thorough"],
                                                                nsched=60 if tier == "quick" else 4000, nrand=40 if tier == "quick" else 2000),
